@@ -107,7 +107,8 @@ def check_state(before, after, src, label):
     return ''
 
 
-MODES = ['kill', 'sigint-before-syscall', 'sigint-after-syscall']
+MODES = ['kill', 'sigint-before-syscall', 'sigint-after-syscall', 'sigterm-before-syscall', 'sigterm-after-syscall', 'sighup-after-syscall']
+NMODE = len(MODES)
 _KB = {}
 
 
@@ -144,7 +145,12 @@ def _case(kind, cfg, k, mode=0):
             rt.begin()
             return rt.ok()  # no crash happens: same as k == n
         rt.begin((K.KINDS[kind], CONFIGS[cfg], k, n, MODES[mode]))
-        hook = scen.CrashHook(k) if mode == 0 else scen.InterruptHook(k, after=(mode == 2))
+        if mode == 0:
+            hook = scen.CrashHook(k)
+        elif mode <= 2:
+            hook = scen.InterruptHook(k, after=(mode == 2))
+        else:  # SIGTERM / SIGHUP: whatever handler the command installed runs; without one the process is killed
+            hook = scen.SignalHook(k, 1 if mode == 5 else 15, after=(mode != 3))
         _, r = scen.run_model(None, [step], hook=hook, model=m)
         after = m.snap('/')
         # (a process that received SIGINT may well die with a traceback: that is still 'killed')
@@ -158,17 +164,18 @@ def _case(kind, cfg, k, mode=0):
 def w_crash(kind: int, cfg: int, k: int, mode: int) -> str:
     """
     pre: PARTITION is None or (cfg == PARTITION[0] and mode == PARTITION[1])
-    pre: 0 <= kind < 6 and 0 <= cfg < 12 and 0 <= k < kbound(None if PARTITION is None else PARTITION[0]) and 0 <= mode < 3
+    pre: 0 <= kind < 6 and 0 <= cfg < 12 and 0 <= k < kbound(None if PARTITION is None else PARTITION[0]) and 0 <= mode < NMODE
     post: _ == ''
     """
-    return _case(rt.sel(kind, 6), rt.sel(cfg, 12), rt.sel(k, kbound(None if PARTITION is None else PARTITION[0])), rt.sel(mode, 3))
+    return _case(rt.sel(kind, 6), rt.sel(cfg, 12), rt.sel(k, kbound(None if PARTITION is None else PARTITION[0])), rt.sel(mode, NMODE))
 
 
 def obligations(tier):
     from harness import kpair
-    return kpair.obligations(tier) + [CH('W_crash_point_x_kind_x_config', MOD, 'w_crash', timeout=2400, partitions=[(c, md) for c in range(12) for md in range(3)], engine='W',
+    return kpair.obligations(tier) + [CH('W_crash_point_x_kind_x_config', MOD, 'w_crash', timeout=2400, partitions=[(c, md) for c in range(12) for md in range(NMODE)], engine='W',
                regime='selector', encodes=K.PUT_FUNCS + ['shutil.move/copytree/copy2/rmtree, os.makedirs (CPython source over the model)'],
-               stubs=K.STUBS + ['SIGKILL -> sticky BaseException at the k-th system call', 'SIGINT -> one KeyboardInterrupt instead of / right after the k-th system call'],
-               bounds='crash point k in 0..(longest undisturbed run of the configuration, measured) x 3 ways of dying (fail-stop; KeyboardInterrupt '
-                      'delivered before / after the k-th system call, clean-up handlers run) x 6 kinds x 12 configurations '
+               stubs=K.STUBS + ['SIGKILL -> sticky BaseException at the k-th system call', 'SIGINT -> one KeyboardInterrupt instead of / right after the k-th system call',
+                      'SIGTERM / SIGHUP -> the handler the command installed with signal.signal (recorded) runs at that point; none installed: killed'],
+               bounds='crash point k in 0..(longest undisturbed run of the configuration, measured) x 6 ways of dying (fail-stop; KeyboardInterrupt '
+                      'delivered before / after the k-th system call, clean-up handlers run; SIGTERM before / after, SIGHUP after, with the handlers the command installs) x 6 kinds x 12 configurations '
                       '(first use, existing dir, sticky .Trash, 1-2 collisions, home, cross-volume fallback, --trash-dir, orphan in the way, a name ending in .trashinfo, a 250-byte name)')]
